@@ -1,6 +1,7 @@
 import GB.C03.ProofsPath
 import GB.C20.BridgeShape
 import GB.C03.ProofsStack
+import GB.Generated.Facts
 /-
   C03 — property theorems. Theorems only; helper lemmas live in Proofs*.lean.
   `Tmpl` is the parsed template (`gwbased.Parse`, property C20), `Table` the routing table as a list of
@@ -335,6 +336,74 @@ theorem C03_stacksize_bound (version : Nat) (ops : List Nat) (pool : List Bytes)
 example : (newPattern 1 (compile ⟨[.plain (.lit [97]), .var [120] [.lit [98], .star, .deep]], []⟩).opcodes
       (compile ⟨[.plain (.lit [97]), .var [120] [.lit [98], .star, .deep]], []⟩).pool []).map
       (fun P => (P.stacksize, (runOpsD P.pool P.tailLen P.ops [[97], [98], [99], [100], [101]] [] [[]]).2)) = some (4, 4) := by
+  decide
+
+/-- **The verb is cut per route, at `":" ++ <that route's verb>`.** Behind a closing `}` the template verb is
+    everything after the first `:` (gwbased `tokenize`), so verbs may contain `:` (`/v1/{name}:batch:cancel` has the
+    verb `batch:cancel`). For the bindings `[/{n}:a:b, /{n}:b]` (any field path `n`, any verbs `a:b` / `b`, any HTTP
+    method) and the request path `/x:a:b` — `x` non-empty — BOTH templates match (`n = x` with verb `a:b`; `n = x:a`
+    with verb `b`), and `RouteHTTP` answers the FIRST one in table order with `n` = `x` decoded once. -/
+theorem C03_verb_split_per_route (m n a b x v : Bytes) (hx : x ≠ [])
+    (hs : ∀ c ∈ x ++ 58 :: (a ++ 58 :: b), c ≠ 47) (hv : decodeOnce false x = some v)
+    (hw1 : WellEscaped (a ++ 58 :: b)) (hw2 : WellEscaped b) :
+    routePath (routesOf [(0, m, ⟨[.var n [.star]], a ++ 58 :: b⟩), (1, m, ⟨[.var n [.star]], b⟩)]) m
+      (47 :: (x ++ 58 :: (a ++ 58 :: b))) = .found (0 : Nat) [(n, v)] := by
+  have hwf : ∀ e ∈ [((0 : Nat), m, (⟨[.var n [.star]], a ++ 58 :: b⟩ : Tmpl)), (1, m, ⟨[.var n [.star]], b⟩)], WF e.2.2 := by
+    intro e he
+    simp only [List.mem_cons, List.not_mem_nil, or_false] at he
+    rcases he with rfl | rfl
+    · exact ⟨by simp [deepCount, atomsOf, Seg.atoms, VSeg.isDeep], by
+        intro p hp; simp [atomsOf, Seg.atoms] at hp; subst hp; trivial, hw1⟩
+    · exact ⟨by simp [deepCount, atomsOf, Seg.atoms, VSeg.isDeep], by
+        intro p hp; simp [atomsOf, Seg.atoms] at hp; subst hp; trivial, hw2⟩
+  rw [C03_route_iff _ hwf, splitSlash_noslash hs]
+  refine ⟨[], _, _, rfl, ?_, by simp⟩
+  have hne : a ++ 58 :: b ≠ [] := by simp
+  simp only [PathMatches, hne, ↓reduceIte]
+  refine ⟨[], x, rfl, hx, ?_⟩
+  have := SegsMatch.var (x := n) (PartsMatch.cons (PartMatch.star hv) PartsMatch.nil) SegsMatch.nil
+  simpa [joinSlash] using this
+
+/-- …and a single split at the LAST colon before the route loop (grpc-gateway `ServeMux` style, `routePathPreSplit`;
+    seeded change C03-m10) answers differently — kernel-checked on `[POST /v1/{n}:a:b, POST /v1/{n}:b]`, `POST /v1/x:a:b`:
+    `RouteHTTP` ⇒ binding 0 with `n = x`; pre-split ⇒ binding 1 with `n = x:a` (wrong binding, wrong capture); and with
+    binding 0 alone the pre-split router answers NotFound although the binding matches. -/
+theorem C03_verb_presplit_fails :
+    let t0 : Tmpl := ⟨[.plain (.lit [118, 49]), .var [110] [.star]], [97, 58, 98]⟩
+    let t1 : Tmpl := ⟨[.plain (.lit [118, 49]), .var [110] [.star]], [98]⟩
+    let path : Bytes := [47, 118, 49, 47, 120, 58, 97, 58, 98]
+    routePath (routesOf [(0, post, t0), (1, post, t1)]) post path = .found (0 : Nat) [([110], [120])] ∧
+    routePathPreSplit (routesOf [(0, post, t0), (1, post, t1)]) post path = .found (1 : Nat) [([110], [120, 58, 97])] ∧
+    routePath (routesOf [((0 : Nat), post, t0)]) post path = .found 0 [([110], [120])] ∧
+    routePathPreSplit (routesOf [((0 : Nat), post, t0)]) post path = .error .notFound ∧
+    PathMatches t0 [[118, 49], [120, 58, 97, 58, 98]] [([110], [120])] := by
+  refine ⟨by decide, by decide, by decide, by decide, ?_⟩
+  refine ⟨[[118, 49]], [120], rfl, by decide, ?_⟩
+  have h1 : PartMatch (.lit [118, 49]) [litText [118, 49]] (litText [118, 49]) := PartMatch.lit
+  have h2 := SegsMatch.var (x := [110]) (PartsMatch.cons (PartMatch.star (s := [120]) (v := [120]) (by decide)) PartsMatch.nil)
+    SegsMatch.nil
+  have := SegsMatch.plain h1 h2
+  simpa [joinSlash, litText, eof] using this
+
+/-- Regenerated go/ast facts (extract/c03.go): in the source of `PatternRouter.RouteHTTP` the verb is cut INSIDE the
+    per-route callback handed to `routes.iterate`, by that route's own verb — the callback reads `route.pattern.Verb()`,
+    tests `strings.HasSuffix(lastPathComponent, ":" + patternVerb)`, declares `verb` / `patternVerb` / `verbIdx` locally
+    and passes its own copy `matchComponents` and `verb` to `MatchAndEscape` in mode AllExceptReserved; outside the
+    callback nothing searches the path for a colon (no `strings.LastIndex*` / `Index*` / `Cut`). This is the shape
+    `stepRoute` models; a split moved in front of the loop (C03-m10) breaks this theorem even if no generated case
+    reached it. -/
+theorem C03_facts_verb_split :
+    "route.pattern.Verb" ∈ GB.Generated.c03RouteCallbackCalls ∧
+    "strings.HasSuffix" ∈ GB.Generated.c03RouteCallbackCalls ∧
+    "route.pattern.MatchAndEscape" ∈ GB.Generated.c03RouteCallbackCalls ∧
+    GB.Generated.c03RouteSuffixArgs = ["lastPathComponent", "\":\" + patternVerb"] ∧
+    GB.Generated.c03RouteMatchArgs = ["matchComponents", "verb", "runtime.UnescapingModeAllExceptReserved"] ∧
+    "verb" ∈ GB.Generated.c03RouteCallbackDecls ∧ "patternVerb" ∈ GB.Generated.c03RouteCallbackDecls ∧
+    "verbIdx" ∈ GB.Generated.c03RouteCallbackDecls ∧
+    (GB.Generated.c03RouteOuterCalls.all fun c =>
+      !(["strings.LastIndexByte", "strings.LastIndex", "strings.Index", "strings.IndexByte", "strings.Cut",
+         "strings.TrimSuffix", "strings.HasSuffix", "route.pattern.Verb"].contains c)) = true ∧
+    "pr.routes.iterate" ∈ GB.Generated.c03RouteOuterCalls := by
   decide
 
 /-! ## Composition with the parser (property C20's model of `gwbased.Parse`)
